@@ -19,7 +19,9 @@ RULE = ("pairs of independently constructed real restrictions built from JSON re
         "the hashes and the match outcome on every element of a fixed universe (values, version objects, (iuse,use) pairs, "
         "packages incl. ones lacking attributes) must agree.  Caches: caching_repo.match(r1) then .match(r2) vs an uncached "
         "query; _compiled_constraints(r1) then (r2) vs __wrapped__(r2) as truth tables; r2 built while r1 is alive vs r2 "
-        "built after the weak instance caches were emptied.  Non-trivial = the implementation says equal and the two "
+        "built after the weak instance caches were emptied.  Construction path 'incremental': every boolean recipe is "
+        "also built with finalize=False + add_restriction() per member + finalize(), with hash()/dict/caching_repo lookups "
+        "attempted while it is incomplete (a refusal is not judged), and judged against its one-shot twin.  Non-trivial = the implementation says equal and the two "
         "objects are distinct (different recipe or rebuilt uncached); distinct = distinct (recipe1, recipe2).")
 ASSUMPTIONS = [
     "nothing is demanded of pairs that compare unequal",
@@ -35,7 +37,7 @@ ASSUMPTIONS = [
 SHARDS = {"quick": 4, "thorough": 16}
 TIMEOUT = {"quick": 240, "thorough": 1800}
 MIN_EVALS = 50000
-REQUIRED_COUNTERS = ("equal_pairs_distinct_objects", "match_vector_elements_compared", "query_cache_probes",
+REQUIRED_COUNTERS = ("incremental_builds", "equal_pairs_distinct_objects", "match_vector_elements_compared", "query_cache_probes",
                      "compiled_cache_probes", "instance_cache_probes")
 
 VALUE_TAGS_STR = ("StrExact", "StrGlob", "StrRegex", "Equality", "StrConv")
@@ -483,6 +485,102 @@ class Mon:
         del v1
 
 
+    def probe_incremental(self, rec, label="incremental"):
+        """A boolean built step by step (finalize=False, add_restriction, finalize) with hash()/dict/query-cache lookups
+        attempted while it is still incomplete, against its twin built in one go: the same laws as for any other pair."""
+        ctx, w = self.ctx, self.w
+        if rec[0] not in ("VBool", "PBool") or len(rec[3]) < 2:
+            return
+        kind = kind_of(rec)
+        try:
+            kids = [w.build(c) for c in rec[3]]
+            nt = w.restriction.value_type if rec[0] == "VBool" else w.restriction.package_type
+            inc = w.bool_cls[rec[1]](kids[0], node_type=nt, negate=rec[2], finalize=False)
+        except Exception as e:
+            ctx.count("incremental_build_failed:" + type(e).__name__)
+            return
+        cache = w.repo_misc.caching_repo(w.db, iter) if kind == "pkg" else None
+        probe_dict = {}
+        early = {"hash": 0, "dict": 0, "query": 0}
+        try:
+            for kid in kids[1:]:
+                # lookups with the half built object; refusing them (TypeError: not finalized) is fine and is not judged
+                for what, f in (("hash", lambda: hash(inc)), ("dict", lambda: probe_dict.get(inc)),
+                                ("query", (lambda: list(cache.match(inc))) if cache is not None else None)):
+                    if f is None:
+                        continue
+                    try:
+                        f()
+                        early[what] += 1
+                        ctx.count("incremental_early_%s_accepted" % what)
+                    except TypeError:
+                        ctx.count("incremental_early_%s_refused" % what)
+                    except Exception as e:
+                        ctx.count("incremental_early_%s_raised_%s" % (what, type(e).__name__))
+                inc.add_restriction(kid)
+            inc.finalize()
+            twin = w.bool_cls[rec[1]](*kids, node_type=nt, negate=rec[2])
+        except Exception as e:
+            ctx.count("incremental_build_failed:" + type(e).__name__)
+            ctx.note("incremental build of %s failed: %r" % (json.dumps(rec)[:160], e))
+            return
+        ctx.count("incremental_builds")
+        wit = {"r1": rec, "r2": rec, "universe": kind, "edit": label, "path": "r2 built incrementally: finalize=False, "
+               "add_restriction() per member with hash/dict/query-cache lookups attempted in between, finalize()",
+               "early_lookups_accepted": early}
+        try:
+            equal = bool(inc == twin) or bool(twin == inc)
+            h1, h2 = hash(twin), hash(inc)
+        except Exception as e:
+            ctx.evaluated()
+            ctx.violation("eq-or-hash-raises", dict(wit, exc=repr(e)))
+            return
+        if inc is twin:
+            ctx.count("incremental_twin_is_same_object")
+            return
+        if not equal:
+            ctx.count("incremental_twin_unequal(no obligation)")
+            return
+        ctx.count("equal_pairs")
+        ctx.count("equal_pairs_distinct_objects")
+        ctx.nontrivial("incremental|" + json.dumps(rec, sort_keys=True))
+        ctx.evaluated()
+        if h1 != h2:
+            ctx.violation("equal-hash-differs", dict(wit, hash1=h1, hash2=h2))
+        ctx.evaluated()
+        if len({twin, inc}) != 1 and h1 == h2:
+            ctx.violation("equal-hash-differs", dict(wit, rule="set keeps both", hash1=h1, hash2=h2))
+        v1, v2 = self.vector(twin, kind, rec), self.vector(inc, kind, rec)
+        ctx.evaluated(len(v1))
+        ctx.count("match_vector_elements_compared", len(v1))
+        if v1 != v2:
+            labs = self.universe_labels(kind, rec)
+            diffs = [{"on": labs[i], "r1": v1[i], "r2": v2[i]} for i in range(len(v1)) if v1[i] != v2[i]]
+            ctx.violation("equal-match-differs", dict(wit, n_differ=len(diffs), differ=diffs[:4]))
+        if cache is not None:
+            try:
+                got_inc = sorted(p.cpvstr for p in cache.match(inc))
+                got_twin = sorted(p.cpvstr for p in cache.match(twin))
+                fresh = sorted(p.cpvstr for p in w.db.itermatch(twin, sorter=iter))
+            except Exception as e:
+                ctx.count("query_cache_probe_raised:" + type(e).__name__)
+                return
+            ctx.count("query_cache_probes")
+            ctx.evaluated()
+            if got_inc != fresh or got_twin != fresh:
+                ctx.violation("query-cache-returns-other-query", dict(
+                    wit, cached_answer_incremental=got_inc, cached_answer_twin=got_twin, fresh_answer=fresh))
+
+
+INCREMENTAL_FIXED = [
+    ["PBool", c, n, [["CategoryDep", "a", False], ["PackageDep", "p", False], ["SlotDep", "0", False]][:k]]
+    for c in ("And", "Or", "JustOne", "AtMostOne") for n in (False, True) for k in (2, 3)
+] + [
+    ["VBool", c, False, [["StrExact", "foo", True, False, 0], ["StrGlob", "f", True, True, False]]]
+    for c in ("And", "Or", "JustOne", "AtMostOne")
+] + [["PBool", "And", False, [["PkgR", "category", ["StrExact", "a", True, False, 0], False],
+                              ["PkgR", "package", ["StrExact", "p", True, False, 0], False]]]]
+
 USE_DEFAULT_ALL = "atom:use-default-all"
 
 
@@ -501,9 +599,14 @@ def flip_all_defaults(rng, rec):
 def run(ctx):
     mon = Mon(ctx)
     rng = ctx.rng
+    # every run: the fixed incremental-construction cases (one per boolean class), on every shard
+    for rec in INCREMENTAL_FIXED:
+        mon.probe_incremental(rec, "incremental-fixed")
     n = ctx.budget(9000, 200000)
     for k in range(n):
         rec1, kind = gen.random_recipe(rng)
+        if rec1[0] in ("VBool", "PBool"):
+            mon.probe_incremental(rec1, "incremental")
         r = rng.random()
         if r < 0.04:
             rec2, label = gen.random_recipe(rng)[0], "random"
@@ -534,6 +637,9 @@ def replay(ctx, w):
     mon = Mon(ctx)
     r1, r2 = w["r1"], w["r2"]
     label = w.get("edit", "replay")
+    if str(w.get("path", "")).startswith("r2 built incrementally"):
+        mon.probe_incremental(r2, label)
+        return
     mon.check_pair(r1, r2, label, nocache2=bool(w.get("nocache2")))
     mon.probe_query_cache(r1, r2, label)
     mon.probe_compiled_cache(r1, r2, label)
